@@ -4,6 +4,7 @@ import (
 	"golang.org/x/tools/go/ssa"
 	"fmt"
 	"regexp"
+	"strings"
 
 	"kverif/core"
 )
@@ -19,9 +20,25 @@ func init() {
 			"(5) capacity errors lead to Delete of the NodeClaim on every path and never to a returned instance; the error of Create is put to both capacity classifiers on every path before launchNodeClaim is left " +
 			"(a capacity error wrapped in a CreateError or any other error is still recognised: no case that matches a wrapper comes first), and a nil error is answered only after a successful create or such a classification; " +
 			"(6) Registration / Initialization stay behind Launch through the node lookup: utils/nodeclaim.NodeForNodeClaim hands back a Node only for a NodeClaim whose Status.ProviderID is non-empty " +
-			"(tested in the function, in a private helper, or in AllNodesForNodeClaim whose list it takes the Node from).",
+			"(tested in the function, in a private helper, or in AllNodesForNodeClaim whose list it takes the Node from); " +
+			"(7) what the sub-reconcilers decided is persisted: after them Controller.Reconcile answers 'no error' only if the NodeClaim equals the deep copy taken before them, a write failed, " +
+			"or the status patch succeeded (MPT9), and that patch sends a deep copy taken after the sub-reconcilers and before the metadata patch, diffed against the very copy compared with, taken before them (PROV5, by SSA identity); " +
+			"(8) Launched=True is set only after Status.ProviderID was taken from the created instance (DOM1d); " +
+			"(9) registration hooks: every hook is asked about this NodeClaim and both answers are kept (PROV3); a hook that failed or answered non-empty is counted pending, and a pending hook that did not fail " +
+			"leaves a non-empty merged Result (its Requeue or-ed in, its RequeueAfter taken when none was taken yet) - Registration.Reconcile recognises 'not ready' by nothing else (ITER2); " +
+			"(10) 'synced': when the hooks are ready the Node is synced again from the NodeClaim before it is marked (POST4); syncNode merges the NodeClaim's taints and startup taints into the Node's unless the Node carries " +
+			"karpenter.sh/do-not-sync-taints=true (POST5a/b) and lays the NodeClaim's labels and annotations over the Node's (PROV4); " +
+			"(11) Initialization writes to the Node only under the preconditions of Initialized (DOM4b); Initialized=True is set only after the initialized label was put on the Node found and that Node " +
+			"either equals the deep copy taken before or was patched successfully (DOM4c); " +
+			"(12) the DRA precondition: draDriverPoolsPublished answers true only if DRA is ignored, nothing is requested, or DRADriversPublished(nodeClaim, slices of this node) does (MPT10); DRADriversPublished never answers true after a " +
+			"requested driver was found without complete pool and only after all were looked at (IMPL7, MPT11); a driver has a complete pool only if observed == declared slice count (DOM7); only slices for which " +
+			"sliceBelongsToNode(slice, node.Name) holds are counted, and that holds only by spec.nodeName or an owner reference of kind Node and that name (DOM8, MPT12).",
 		NotCovered: []string{"whether a cloud provider wraps its capacity errors such that errors.As finds them (the classifiers' contract, C14.ERRC1/2, is what is decided)", "that a Node with a non-empty provider id equal to the NodeClaim's belongs to the instance that was launched (the provider's uniqueness of ids)",
-			"duplicate launches across controller restarts (the cache is in memory; the property says 'while the controller keeps running')", "idempotence of the provider", "freshness of the informer cache beyond the launch cache bridge"},
+			"duplicate launches across controller restarts (the cache is in memory; the property says 'while the controller keeps running')", "idempotence of the provider", "freshness of the informer cache beyond the launch cache bridge",
+			"the arithmetic of completePoolDrivers (which generation a slice is counted for, resetting the count on a newer generation): only the final comparison observed == declared is decided",
+			"that the merged hook Result is the *shortest* interval (requeue timing); that an error of kubeClient.Delete after a capacity error is returned (progress: liveness deletes the NodeClaim)",
+			"the order of the deep copies relative to statements other than the sub-reconciler calls and the metadata patch; owner references and the termination finalizer put on the Node by syncNode (C09)",
+			"Liveness (C16), NodePool registration health (C20), finalize (C09), PopulateNodeClaimDetails' field list (C15.PROV2)"},
 		Rules: c14Rules,
 	})
 }
@@ -37,8 +54,38 @@ func c14Rules(tier string) []Rule {
 	// the labels / annotations resolved at launch are persisted before Launched=True is: a requeue that already sees
 	// Launched skips Launch and would never write them again (the NodeClaim then looks drifted from its NodePool)
 	rules = append(rules, c14ClassifiedFirst("C14.MPT7"), c14NodeLookup("C14.RET1"))
-	rules = append(rules, NOREACH{ID: "C14.NR1", Fn: "(*life.Controller).Reconcile", From: `^call iface:\(cr/client\.SubResourceWriter\)\.Patch\(iface:\(cr/client\.StatusClient\)\.Status\(\$0\.kubeClient\), `,
-		Sink: `^call iface:\(cr/client\.Writer\)\.Patch\(\$0\.kubeClient, `, Note: "no metadata patch after the status patch"})
+	rules = append(rules, c14TriageRules()...)
+	rules = append(rules, core.Custom{ID: "C14.NR1", Kind: "NOREACH", Run: func(w *core.World, id string) []core.Result {
+		// evaluated where the status patch lives: Controller.Reconcile or the private helper the persisting was extracted into
+		const ctrl = "(*life.Controller).Reconcile"
+		mk := func(fnName string) NOREACH {
+			return NOREACH{ID: id, Fn: fnName, From: `^call iface:\(cr/client\.SubResourceWriter\)\.Patch\(iface:\(cr/client\.StatusClient\)\.Status\(\$0\.kubeClient\), `,
+				Sink: `^call iface:\(cr/client\.Writer\)\.Patch\(\$0\.kubeClient, `, Note: "no metadata patch after the status patch"}
+		}
+		fn := w.Fn(ctrl)
+		if fn == nil {
+			return mk(ctrl).Check(w)
+		}
+		var first, good []core.Result
+		after := c14AfterSubReconcilers(w, fn)
+		w.WithHelpers(fn, func(f *ssa.Function, via ssa.Instruction) {
+			if !after(f, via) {
+				return
+			}
+			r := mk(core.FnName(f)).Check(w)
+			if first == nil {
+				first = r
+			}
+			if !(len(r) == 1 && r[0].Status != core.Discharged && strings.HasPrefix(r[0].Msg, "vacuous")) {
+				good = append(good, r...)
+			}
+		})
+		if good != nil {
+			return good
+		}
+		return first
+	}})
+	rules = append(rules, c14StatusPatchOperands("C14.PROV5"))
 	return rules
 }
 
@@ -173,16 +220,7 @@ func c14RulesBase(tier string) []Rule {
 		)},
 
 		// ---- Initialized
-		DOM{ID: "C14.DOM4", Fn: ini, Sink: setTrue("Initialized"), Gates: gates(
-			G(`+^\(\*opkg/status\.Condition\)\.IsUnknown\(`+cond(`\$2`, "Initialized")+`\)$`),
-			G(`+^\(\*opkg/status\.Condition\)\.IsTrue\(`+cond(`\$2`, "Registered")+`\)$`),
-			G(`+^utils/nodeclaim\.NodeForNodeClaim\(\$0\.kubeClient, \$2\)#1 == nil$`),
-			G(`+^utils/node\.GetCondition\(utils/nodeclaim\.NodeForNodeClaim\(\$0\.kubeClient, \$2\)#0, "Ready"\)\.Status == "True"$`),
-			G(`+^life\.StartupTaintsRemoved\(utils/nodeclaim\.NodeForNodeClaim\(\$0\.kubeClient, \$2\)#0, \$2\)#1$`),
-			G(`+^life\.KnownEphemeralTaintsRemoved\(utils/nodeclaim\.NodeForNodeClaim\(\$0\.kubeClient, \$2\)#0\)#1$`),
-			G(`+^life\.RequestedResourcesRegistered\(utils/nodeclaim\.NodeForNodeClaim\(\$0\.kubeClient, \$2\)#0, \$2\)#1$`),
-			G(`+^\(\*life\.Initialization\)\.draDriverPoolsPublished\(\$0, utils/nodeclaim\.NodeForNodeClaim\(\$0\.kubeClient, \$2\)#0, \$2\)#1$`),
-			G(`+^\(\*life\.Initialization\)\.draDriverPoolsPublished\(\$0, utils/nodeclaim\.NodeForNodeClaim\(\$0\.kubeClient, \$2\)#0, \$2\)#2 == nil$`),
+		DOM{ID: "C14.DOM4", Fn: ini, Sink: setTrue("Initialized"), Gates: append(c14InitializedPreconditions(),
 			G(`+^\(k8s\.io/apimachinery/third_party/forked/golang/reflect\.Equalities\)\.DeepEqual\(.*<\*corev1\.Node>`, `+^iface:\(cr/client\.Writer\)\.Patch\(\$0\.kubeClient, <\*corev1\.Node>utils/nodeclaim\.NodeForNodeClaim\(\$0\.kubeClient, \$2\)#0, .* == nil$`),
 		)},
 		// the helper predicates
@@ -362,6 +400,361 @@ func c14NodeLookup(id string) Rule {
 		}
 		if len(out) == 0 {
 			out = append(out, core.OK(id, "RET", construct, n+m, fmt.Sprintf("%d Node return(s) of %s, %d list return(s) of %s: only for a NodeClaim with a provider id", n, one, m, all)))
+		}
+		return out
+	}}
+}
+
+// ---------------------------------------------------------------------------
+// Rules added by the triage of the mutation sweep (sweep/C14.missed.txt). Each states a fact the statement of C14 relies on
+// and that no earlier row decided.
+func c14TriageRules() []Rule {
+	const (
+		ctrl   = "(*life.Controller).Reconcile"
+		launch = "(*life.Launch).Reconcile"
+		reg    = "(*life.Registration).Reconcile"
+		hooksF = "(*life.Registration).checkRegistrationHooks"
+		syncF  = "(*life.Registration).syncNode"
+		ini    = "(*life.Initialization).Reconcile"
+		dra    = "(*life.Initialization).draDriverPoolsPublished"
+		slices = "(*life.Initialization).resourceSlicesForNode"
+		drv    = "life.DRADriversPublished"
+		pools  = "life.completePoolDrivers"
+		belong = "life.sliceBelongsToNode"
+	)
+	eq := `\(k8s\.io/apimachinery/third_party/forked/golang/reflect\.Equalities\)\.DeepEqual\(apim/api/equality\.Semantic\.Equalities, `
+	setTrue := func(t string) string {
+		return `^call \(opkg/status\.ConditionSet\)\.SetTrue\(\(\*apis/v1\.NodeClaim\)\.StatusConditions\(.*\), "` + t + `"\)`
+	}
+
+	// ---- (7) what the sub-reconcilers decided is persisted.
+	// Launched=True (with the provider id) has to reach the API server: the launch cache only bridges the time until it does
+	// (entries expire; Launch.Reconcile drops its entry once it *sees* Launched). After the sub-reconcilers ran, Reconcile
+	// answers "no error" only if the NodeClaim equals the deep copy taken before them, or the status patch — of a deep copy
+	// of the NodeClaim (the metadata patch overwrites the object it is given with the server's answer, status included),
+	// against that earlier deep copy — succeeded, or a write failed with an error the caller chose to ignore (NotFound).
+	nc := `<\*apis/v1\.NodeClaim>`
+	ncCopy := nc + `\(\*apis/v1\.NodeClaim\)\.DeepCopy\(\$2\)`
+	persisted := MPT{ID: "C14.MPT9", Fn: ctrl, Ret: core.RetOK, Min: 3, Gates: gates(G(
+		// not ours / terminating: nothing is reconciled
+		`-^utils/nodeclaim\.IsManaged\(\$2, \$0\.cloudProvider\)$`,
+		`-^\(\*metav1\.Time\)\.IsZero\(\$2\.ObjectMeta\.DeletionTimestamp\)$`,
+		// a write failed (finalizer patch, metadata patch, status patch)
+		`-^iface:\(cr/client\.Writer\)\.Patch\(\$0\.kubeClient, `+nc+`\$2, .* == nil$`,
+		`-^iface:\(cr/client\.SubResourceWriter\)\.Patch\(iface:\(cr/client\.StatusClient\)\.Status\(\$0\.kubeClient\), .* == nil$`,
+		// nothing changed
+		`+^`+eq+ncCopy+`, `+nc+`\$2\)$`, `+^`+eq+nc+`\$2, `+ncCopy+`\)$`,
+		// the status patch went through
+		`+^iface:\(cr/client\.SubResourceWriter\)\.Patch\(iface:\(cr/client\.StatusClient\)\.Status\(\$0\.kubeClient\), `+ncCopy+`, cr/client\.MergeFrom(WithOptions)?\(`+ncCopy+`[,)].* == nil$`,
+	)), Note: "after the sub-reconcilers: unchanged, or status patch of a deep copy against the earlier deep copy succeeded"}
+
+	// ---- (8) Launched=True is recorded together with the provider id of the created instance: that id is the only
+	// observable link between the NodeClaim and its instance (Registration finds the Node by it, RET1; finalization
+	// deletes the instance only for a NodeClaim that has one).
+	launchedWithID := DOM{ID: "C14.DOM1d", Fn: launch, Sink: setTrue("Launched"), Gates: gates(
+		G(`instr:^store \$2\.Status\.ProviderID = [^$].*\.Status\.ProviderID$`),
+	), Note: "Status.ProviderID is taken from the created instance before Launched is set"}
+
+	// ---- (9) registration hooks (cloudprovider.NodeLifecycleHook: "all registered hooks must return an empty result before
+	// node registration completes"). Registration.Reconcile recognises "a hook is not ready" only by a non-empty Result or
+	// an error coming back from checkRegistrationHooks (DOM3/DOM3b/DOM3c), so inside it
+	//   - every hook is asked, with this NodeClaim, and both answers are kept;
+	//   - a hook that failed or answered non-empty is counted as pending (then the function cannot return (zero, nil), MPT2);
+	//   - a pending hook that did not fail leaves a non-empty merged Result: its Requeue is or-ed in, and its RequeueAfter is
+	//     taken whenever none was taken so far.
+	hookRes := `makeslice<\[\]cloudprovider\.NodeLifecycleHookResult>\[.+\]`
+	hookErr := `\^?makeslice<\[\]error>\[.+\] == nil`
+	hookEmpty := `lo\.IsEmpty\[cloudprovider\.NodeLifecycleHookResult\]\(` + hookRes + `\)`
+	pending := `instr:^call append\(phi\(nil\|.*, &local<\[1\]string>\[:\]\)$`
+	asked := `iface:\(cloudprovider\.NodeLifecycleHook\)\.Registered\(\^?\$0\.registrationHooks\[.+\], \^?\$2\)`
+	hookAsked := core.Custom{ID: "C14.PROV3", Kind: "PROV", Run: func(w *core.World, id string) []core.Result {
+		rs := core.InstrPresent(w, id, "PROV", hooksF, `^store \^?makeslice<\[\]cloudprovider\.NodeLifecycleHookResult>\[.+\] = `+asked+`#0$`, 1, "every registration hook is asked about this NodeClaim and its result is kept")
+		return append(rs, core.InstrPresent(w, id, "PROV", hooksF, `^store \^?makeslice<\[\]error>\[.+\] = `+asked+`#1$`, 1, "the error of every registration hook is kept")...)
+	}}
+	hookLoop := ITER{ID: "C14.ITER2", Fn: hooksF, Loop: `+^\(phi\(-1\|\(phi↺ \+ 1\)\) \+ 1\) < len\(makeslice<\[\](cloudprovider\.NodeLifecycleHookResult|error)>\)$`, Gates: gates(
+		G(`+^`+hookErr+`$`, pending),
+		G(`+^`+hookEmpty+`$`, pending),
+		G(`+^`+hookEmpty+`$`, `-^`+hookErr+`$`, `-^`+hookRes+`\.Requeue$`,
+			`instr:^store \S+\.Requeue = (true|phi\(true\|`+hookRes+`\.Requeue\))$`),
+		G(`+^`+hookEmpty+`$`, `-^`+hookErr+`$`, `-^\S+\.RequeueAfter == 0$`, `-^0 < `+hookRes+`\.RequeueAfter$`, `+^`+hookRes+`\.RequeueAfter == 0$`,
+			`instr:^store \S+\.RequeueAfter = `+hookRes+`\.RequeueAfter$`),
+	), Note: "failed / non-empty hook ⇒ pending; pending without error ⇒ merged result non-empty"}
+
+	// ---- (10) "synced": Registered=True is set only after the Node was synced from the NodeClaim as the hooks left it
+	// (they may mutate it), and the sync carries labels, annotations, taints and startup taints (the taints unless the
+	// Node says karpenter.sh/do-not-sync-taints=true). Once Registered is true Registration never looks at the Node again.
+	node := `utils/nodeclaim\.NodeForNodeClaim\(\$0\.kubeClient, \$2\)#0`
+	hooksCall := `\(\*life\.Registration\)\.checkRegistrationHooks\(\$0, \$2\)`
+	resync := POST{ID: "C14.POST4", Fn: reg, From: `^call ` + hooksCall + `$`,
+		Must:   []string{`^call \(\*life\.Registration\)\.syncNode\(\$0, \$2, ` + node + `\)$`},
+		Excuse: []string{`-^lo\.IsEmpty\[cr/reconcile\.Result\]\(` + hooksCall + `#0\)$`, `-^` + hooksCall + `#1 == nil$`},
+		Note:   "hooks ready ⇒ the Node is synced again from the NodeClaim before it is marked registered"}
+	noSync := `+^\$2\.ObjectMeta\.Labels\["karpenter\.sh/do-not-sync-taints"\](#0)? == "true"$`
+	syncTaints := POST{ID: "C14.POST5a", Fn: syncF, Must: []string{`^store \$2\.Spec\.Taints = \(scheduling\.Taints\)\.Merge\(\$2\.Spec\.Taints, \$1\.Spec\.Taints\)$`}, Excuse: []string{noSync},
+		Note: "the NodeClaim's taints are merged into the Node's unless the Node opts out"}
+	syncStartup := POST{ID: "C14.POST5b", Fn: syncF, Must: []string{`^store \$2\.Spec\.Taints = \(scheduling\.Taints\)\.Merge\(\$2\.Spec\.Taints, \$1\.Spec\.StartupTaints\)$`}, Excuse: []string{noSync},
+		Note: "the NodeClaim's startup taints are merged into the Node's unless the Node opts out (Initialization waits for them to go)"}
+	syncMeta := core.Custom{ID: "C14.PROV4", Kind: "PROV", Run: func(w *core.World, id string) []core.Result {
+		var rs []core.Result
+		for _, f := range []string{"Labels", "Annotations"} {
+			rs = append(rs, POST{ID: id, Fn: syncF, Must: []string{`^store \$2\.ObjectMeta\.` + f + ` = lo\.Assign\[string, string, map\[string\]string\]\(&local<\[\d+\]map\[string\]string>\[:\]\)$`},
+				Note: "the Node's " + f + " are rewritten on every sync"}.Check(w)...)
+			rs = append(rs, core.InstrPresent(w, id, "PROV", syncF, `^store &local<\[\d+\]map\[string\]string>\[[1-9]\d*\] = \$1\.ObjectMeta\.`+f+`$`, 1, "the NodeClaim's "+f+" are laid over the Node's")...)
+		}
+		return rs
+	}}
+
+	// ---- (11) Initialization writes to the Node (the karpenter.sh/initialized label) only under the preconditions of
+	// Initialized=True, and Initialized=True is set only once that label is on the Node object and persisted.
+	iniPre := c14InitializedPreconditions()
+	iniWrite := DOM{ID: "C14.DOM4b", Fn: ini, Sink: `^call iface:\(cr/client\.(Writer|SubResourceWriter)\)\.(Patch|Update)\(.*<\*corev1\.Node>`, Gates: iniPre,
+		Note: "the Node is patched (initialized label) only when the preconditions of Initialized hold"}
+	nodeTyped := `<\*corev1\.Node>` + node
+	nodeCopy := `<\*corev1\.Node>\(\*corev1\.Node\)\.DeepCopy\(` + node + `\)`
+	iniLabel := DOM{ID: "C14.DOM4c", Fn: ini, Sink: setTrue("Initialized"), Gates: gates(
+		G(`instr:^mapupdate .*\["karpenter\.sh/initialized"\] = "true"$`),
+		G(`instr:^mapupdate `+node+`\.ObjectMeta\.Labels\["karpenter\.sh/initialized"\] = "true"$`, `instr:^store `+node+`\.ObjectMeta\.Labels = lo\.Assign\[`),
+		G(`+^`+eq+nodeCopy+`, `+nodeTyped+`\)$`, `+^`+eq+nodeTyped+`, `+nodeCopy+`\)$`,
+			`+^iface:\(cr/client\.Writer\)\.Patch\(\$0\.kubeClient, `+nodeTyped+`, cr/client\.MergeFrom(WithOptions)?\(<\*corev1\.Node>\(\*corev1\.Node\)\.DeepCopy\(.* == nil$`),
+	), Note: "initialized label written to the Node found, and either already there (equal to the deep copy taken before) or patched"}
+
+	// ---- (12) precondition (d) of Initialized, DRA: every driver the NodeClaim expects has published a complete pool on
+	// this Node. The chain is draDriverPoolsPublished ⇒ DRADriversPublished(slices of this node) ⇒ per driver
+	// completePoolDrivers(slices).Has(driver) ⇒ observed == declared slice count; slices of this node = sliceBelongsToNode.
+	ann := `\.ObjectMeta\.Annotations\["karpenter\.sh/requested-dra-drivers"\]`
+	loopExit := `-^\(phi\(-1\|\(phi↺ \+ 1\)\) \+ 1\) < len\(`
+	obs := `next\(range\(.*\)\)#2\.`
+	draRules := []Rule{
+		MPT{ID: "C14.MPT10", Fn: dra, Ret: core.RetSpec{Index: 1, Want: "true"}, Gates: gates(G(
+			`+^operator/options\.FromContext\(\)\.IgnoreDRARequests$`,
+			`-^\$3`+ann+`#1$`,
+			`-^\(\*life\.Initialization\)\.resourceSlicesForNode\(\$0, \$2\)#1 == nil$`, // answered together with the error, which the caller looks at first
+			`+^life\.DRADriversPublished\(\$3, \(\*life\.Initialization\)\.resourceSlicesForNode\(\$0, \$2\)#0\)#1$`,
+		)), Note: "published ⇒ DRA ignored ∨ nothing requested ∨ DRADriversPublished(nodeClaim, slices of this node)"},
+		IMPL{ID: "C14.IMPL7", Fn: drv, Lit: `-^\(apim/util/sets\.Set\[string\]\)\.Has\(life\.completePoolDrivers\(\$1\), `, Not: core.RetTrue,
+			Note: "a requested driver without a complete pool ⇒ not published"},
+		MPT{ID: "C14.MPT11", Fn: drv, Ret: core.RetTrue, Gates: gates(G(
+			`+^strings\.TrimSpace\(\$0`+ann+`\) == ""$`, `+^\$0`+ann+` == ""$`, `-^\$0`+ann+`#1$`,
+			loopExit+`strings\.Split\(`,
+		)), Note: "published only after every requested driver was looked at"},
+		DOM{ID: "C14.DOM7", Fn: pools, Sink: `^call \(apim/util/sets\.Set\[string\]\)\.Insert\(`, Gates: gates(
+			G(`+^`+obs+`observed == `+obs+`resourceSliceCount$`, `+^`+obs+`resourceSliceCount == `+obs+`observed$`),
+		), Note: "a driver has a complete pool only if as many slices were observed as the pool declares"},
+		DOM{ID: "C14.DOM8", Fn: slices, Sink: `^call append\(`, Gates: gates(
+			G(`+^life\.sliceBelongsToNode\(.*, \$2\.ObjectMeta\.Name\)$`),
+		), Note: "only slices of this node are counted"},
+		MPT{ID: "C14.MPT12", Fn: belong, Ret: core.RetTrue, Min: 2, Gates: gates(
+			G(`+^(\$1 == lo\.FromPtr\[string\]\(\$0\.Spec\.NodeName\)|lo\.FromPtr\[string\]\(\$0\.Spec\.NodeName\) == \$1)$`,
+				`+^(\$0\.ObjectMeta\.OwnerReferences\[.+\]\.Name == \$1|\$1 == \$0\.ObjectMeta\.OwnerReferences\[.+\]\.Name)$`),
+			G(`+^(\$1 == lo\.FromPtr\[string\]\(\$0\.Spec\.NodeName\)|lo\.FromPtr\[string\]\(\$0\.Spec\.NodeName\) == \$1)$`,
+				`+^(\$0\.ObjectMeta\.OwnerReferences\[.+\]\.Kind == "Node"|"Node" == \$0\.ObjectMeta\.OwnerReferences\[.+\]\.Kind)$`),
+		), Note: "a slice is the node's by spec.nodeName or by an owner reference of kind Node with the node's name"},
+	}
+
+	rules := []Rule{persisted, launchedWithID, hookAsked, hookLoop, resync, syncTaints, syncStartup, syncMeta, iniWrite, iniLabel}
+	return append(rules, draRules...)
+}
+
+// c14InitializedPreconditions: the observable preconditions of Initialized (and of the initialized label on the Node), as
+// literals of Initialization.Reconcile.
+func c14InitializedPreconditions() []Gate {
+	return gates(
+		G(`+^\(\*opkg/status\.Condition\)\.IsUnknown\(`+cond(`\$2`, "Initialized")+`\)$`),
+		G(`+^\(\*opkg/status\.Condition\)\.IsTrue\(`+cond(`\$2`, "Registered")+`\)$`),
+		G(`+^utils/nodeclaim\.NodeForNodeClaim\(\$0\.kubeClient, \$2\)#1 == nil$`),
+		G(`+^utils/node\.GetCondition\(utils/nodeclaim\.NodeForNodeClaim\(\$0\.kubeClient, \$2\)#0, "Ready"\)\.Status == "True"$`),
+		G(`+^life\.StartupTaintsRemoved\(utils/nodeclaim\.NodeForNodeClaim\(\$0\.kubeClient, \$2\)#0, \$2\)#1$`),
+		G(`+^life\.KnownEphemeralTaintsRemoved\(utils/nodeclaim\.NodeForNodeClaim\(\$0\.kubeClient, \$2\)#0\)#1$`),
+		G(`+^life\.RequestedResourcesRegistered\(utils/nodeclaim\.NodeForNodeClaim\(\$0\.kubeClient, \$2\)#0, \$2\)#1$`),
+		G(`+^\(\*life\.Initialization\)\.draDriverPoolsPublished\(\$0, utils/nodeclaim\.NodeForNodeClaim\(\$0\.kubeClient, \$2\)#0, \$2\)#1$`),
+		G(`+^\(\*life\.Initialization\)\.draDriverPoolsPublished\(\$0, utils/nodeclaim\.NodeForNodeClaim\(\$0\.kubeClient, \$2\)#0, \$2\)#2 == nil$`),
+	)
+}
+
+func c14Strip(v ssa.Value) ssa.Value {
+	for {
+		switch x := v.(type) {
+		case *ssa.MakeInterface:
+			v = x.X
+		case *ssa.ChangeInterface:
+			v = x.X
+		case *ssa.ChangeType:
+			v = x.X
+		default:
+			return v
+		}
+	}
+}
+
+// c14After: instruction b can execute after instruction a (same function).
+func c14After(a, b ssa.Instruction) bool {
+	if a.Parent() != b.Parent() {
+		return false
+	}
+	if a.Block() == b.Block() {
+		ia, ib := -1, -1
+		for i, x := range a.Block().Instrs {
+			if x == a {
+				ia = i
+			}
+			if x == b {
+				ib = i
+			}
+		}
+		if ia < ib {
+			return true
+		}
+	}
+	return core.Reach(a.Block().Succs, nil)[b.Block()]
+}
+
+// c14AfterSubReconcilers returns the filter for World.WithHelpers(Controller.Reconcile, …) that keeps Reconcile itself and the
+// private helpers it calls where a sub-reconciler may already have run (the persisting part, if it was extracted) — not
+// the helpers of the other branches (finalize).
+func c14AfterSubReconcilers(w *core.World, root *ssa.Function) func(f *ssa.Function, via ssa.Instruction) bool {
+	// (the loop over the sub-reconcilers may itself sit in a private helper: then the call of that helper stands for it)
+	subs := w.SitesOr(root, regexp.MustCompile(`^call iface:\(cr/reconcile\.TypedReconciler\[\*apis/v1\.NodeClaim\]\)\.Reconcile\(`), false, 1)
+	ok := map[*ssa.Function]bool{root: true}
+	return func(f *ssa.Function, via ssa.Instruction) bool {
+		if via == nil {
+			return true
+		}
+		if via.Parent() == root {
+			for _, s := range subs {
+				if c14After(s, via) {
+					ok[f] = true
+				}
+			}
+		} else if ok[core.RootFn(via.Parent())] {
+			ok[f] = true
+		}
+		return ok[f]
+	}
+}
+
+// C14.PROV5: the operands of the status patch in Controller.Reconcile, by SSA identity (all deep copies of the NodeClaim
+// render alike, so MPT9 cannot tell them apart). The status patch persists what the sub-reconcilers decided only if
+//   - the object patched and the base of the merge patch are different values (a copy diffed against itself is empty);
+//   - the base is the very copy the NodeClaim was compared with, a DeepCopy taken where no sub-reconciler has run yet;
+//   - the object is a DeepCopy taken after the sub-reconcilers and not after the metadata patch (which overwrites the object it
+//     is given, status included, with the server's answer).
+// The patch may live in a private helper; its parameters are then read as the arguments of the call.
+func c14StatusPatchOperands(id string) Rule {
+	const ctrl = "(*life.Controller).Reconcile"
+	return core.Custom{ID: id, Kind: "PROV", Run: func(w *core.World, id string) []core.Result {
+		fn := w.Fn(ctrl)
+		if fn == nil {
+			return []core.Result{core.Anchor(id, "PROV", ctrl)}
+		}
+		construct := "PROV:" + ctrl + ":status-patch(object, base)"
+		statusRe := regexp.MustCompile(`^call iface:\(cr/client\.SubResourceWriter\)\.Patch\(iface:\(cr/client\.StatusClient\)\.Status\(`)
+		metaRe := regexp.MustCompile(`^call iface:\(cr/client\.Writer\)\.Patch\(.*, cr/client\.MergeFrom\(`)
+		subRe := regexp.MustCompile(`^call iface:\(cr/reconcile\.TypedReconciler\[\*apis/v1\.NodeClaim\]\)\.Reconcile\(`)
+		eqRe := regexp.MustCompile(`^call \(k8s\.io/apimachinery/third_party/forked/golang/reflect\.Equalities\)\.DeepEqual\(`)
+		var out []core.Result
+		bad := func(in ssa.Instruction, msg string) {
+			out = append(out, core.Bad(id, "PROV", construct, w.InstrPos(in), msg))
+		}
+		n := 0
+		after := c14AfterSubReconcilers(w, fn)
+		w.WithHelpers(fn, func(f *ssa.Function, via ssa.Instruction) {
+			if !after(f, via) {
+				return
+			}
+			resolve := func(v ssa.Value) (ssa.Value, *ssa.Function) {
+				v = c14Strip(v)
+				if p, ok := v.(*ssa.Parameter); ok && via != nil {
+					if ci, ok := via.(ssa.CallInstruction); ok {
+						for j, q := range f.Params {
+							if q == p && j < len(ci.Common().Args) {
+								return c14Strip(ci.Common().Args[j]), via.Parent()
+							}
+						}
+					}
+				}
+				return v, f
+			}
+			deepCopy := func(v ssa.Value) *ssa.Call {
+				c, ok := v.(*ssa.Call)
+				if !ok || w.CalleeName(c.Common()) != "(*apis/v1.NodeClaim).DeepCopy" {
+					return nil
+				}
+				return c
+			}
+			for _, site := range w.Sites(f, statusRe, false) {
+				ci, ok := site.(ssa.CallInstruction)
+				if !ok {
+					continue
+				}
+				n++
+				var obj, base ssa.Value
+				args := core.CallArgs(ci.Common())
+				for i, a := range args {
+					if c, ok := c14Strip(a).(*ssa.Call); ok && i > 0 && len(c.Call.Args) > 0 && strings.HasPrefix(w.CalleeName(c.Common()), "cr/client.MergeFrom") {
+						obj, base = c14Strip(args[i-1]), c14Strip(c.Call.Args[0])
+					}
+				}
+				if obj == nil {
+					bad(site, "the status patch of the NodeClaim is not a client.MergeFrom(…) patch (idiom not recognised)")
+					continue
+				}
+				if obj == base {
+					bad(site, "the status patch diffs an object against itself: nothing the sub-reconcilers decided is persisted")
+					continue
+				}
+				cmp := false
+				for _, e := range w.Sites(f, eqRe, false) {
+					for _, a := range e.(ssa.CallInstruction).Common().Args {
+						if c14Strip(a) == base {
+							cmp = true
+						}
+					}
+				}
+				if !cmp {
+					bad(site, "the base of the status patch is not the copy the NodeClaim was compared with (DeepEqual): the patch can be empty although the status changed")
+				}
+				bv, bf := resolve(base)
+				if bc := deepCopy(bv); bc == nil {
+					bad(site, "the base of the status patch is `"+w.Render(bv)+"`, not a DeepCopy of the NodeClaim taken before the sub-reconcilers ran")
+				} else {
+					subs := w.SitesOr(bf, subRe, true, 1)
+					if len(subs) == 0 {
+						bad(site, "the base of the status patch is copied in "+core.FnName(bf)+", which does not run the sub-reconcilers: not known to be taken before them")
+					}
+					for _, s := range subs {
+						if c14After(s, bc) {
+							bad(bc, "the base of the status patch is copied where a sub-reconciler may already have run: its changes are not part of the patch")
+							break
+						}
+					}
+				}
+				ov, of := resolve(obj)
+				if oc := deepCopy(ov); oc == nil {
+					bad(site, "the object of the status patch is `"+w.Render(ov)+"`, not a DeepCopy of the NodeClaim (the metadata patch overwrites the NodeClaim it is given with the server's answer, status included)")
+				} else {
+					for _, m := range w.Sites(of, metaRe, false) {
+						if c14After(m, oc) {
+							bad(oc, "the object of the status patch is copied after the metadata patch, which has overwritten the status with the server's")
+							break
+						}
+					}
+					if subs := w.SitesOr(of, subRe, true, 1); len(subs) > 0 {
+						after := false
+						for _, s := range subs {
+							after = after || c14After(s, oc)
+						}
+						if !after {
+							bad(oc, "the object of the status patch is copied before the sub-reconcilers ran")
+						}
+					}
+				}
+			}
+		})
+		if n == 0 {
+			bad(fn.Blocks[0].Instrs[0], "vacuous: no status patch of the NodeClaim in "+ctrl+" or its private helpers")
+		}
+		if len(out) == 0 {
+			out = append(out, core.OK(id, "PROV", construct, n, "object: a copy taken after the sub-reconcilers and before the metadata patch; base: the copy compared with, taken before them"))
 		}
 		return out
 	}}
